@@ -33,6 +33,10 @@ def configs(tier):
     # a checkpoint restored while a run is in progress (load from a callback): the update rule needs the optimizer's
     # parameter objects to stay the state's - load's contract (C11's obligation set), shared here
     out.append({"part": "callee-load", "kind": "complex"})
+    # the negative phase is k steps of the Gibbs kernel whatever torch's training flag of the network says (an evaluation
+    # callback may have called .eval()): the kernel's contract (C05's obligation set), shared here
+    out.append({"part": "callee-kernel", "rbm": "binary", "nv": 2, "nh": 1, "module_mode": "eval"})
+    out.append({"part": "callee-kernel", "rbm": "purification", "nv": 1, "nh": 1, "na": 1, "module_mode": "eval"})
     out.append({"generic": "every shape"})
     out.append({"independence": "complex"})
     out.append({"independence": "mixed"})
@@ -83,6 +87,12 @@ def run_config(ctx, cfg):
     if cfg.get("part") == "callee-load":
         from lemmas import C11
         return C11._load(ctx, {"fn": "load", "kind": cfg["kind"]})
+    if cfg.get("part") == "callee-kernel":
+        from lemmas import C05
+        from drivers import common as _DC
+        _DC.VIA[0], _DC.SYM_ORIG[0] = None, True
+        sub_cfg = {k: v for k, v in cfg.items() if k != "part"}
+        return (C05._binary if cfg["rbm"] == "binary" else C05._purification)(ctx, sub_cfg)
     if cfg.get("part") == "second-fit":
         return _second_fit(ctx, cfg)
     if cfg["part"] == "fit":
@@ -220,6 +230,11 @@ def _vector_to_grads(ctx, cfg):
 
 
 def replay(o):
+    if o["cfg"].get("part") == "callee-kernel":
+        from lemmas import C05
+        o2 = dict(o)
+        o2["cfg"] = {k: v for k, v in o["cfg"].items() if k != "part"}
+        return C05.replay(o2)
     if o["cfg"].get("independence"):
         from drivers import C20 as D20
         return D20.replay({"part": "module", "kind": o["cfg"]["independence"]})
